@@ -73,6 +73,11 @@ func zzShape(name, table string, shape, userIdentity, order int) Integration {
 		ig.Block = append(ig.Block, dig.BlockData{Name: "block_num", Column: "block_num"})
 		cols = append(cols, "block_num")
 	}
+	if userIdentity == 2 {
+		// the user declares identity COLUMNS in the table only (no block entries):
+		// the fields must still be added so the columns are written
+		cols = append(cols, "block_num", "tx_idx")
+	}
 	if order == 1 {
 		for i, j := 0, len(cols)-1; i < j; i, j = i+1, j-1 {
 			cols[i], cols[j] = cols[j], cols[i]
@@ -144,7 +149,7 @@ func zzHas(list []string, s string) bool {
 
 // ZZ_C16_Schema: one or two integrations (shapeB = -1: one), sharing a table or not.
 func ZZ_C16_Schema(shapeA, shapeB, shared int) {
-	uidA, ordA := zzvrf.Pick("A.user-identity", 2), zzvrf.Pick("A.column-order", 2)
+	uidA, ordA := zzvrf.Pick("A.user-identity", 3), zzvrf.Pick("A.column-order", 2)
 	conf := Root{}
 	conf.Integrations = append(conf.Integrations, zzShape("a", "t1", shapeA, uidA, ordA))
 	shapes := []int{shapeA}
@@ -153,7 +158,7 @@ func ZZ_C16_Schema(shapeA, shapeB, shared int) {
 		if shared == 1 {
 			tb = "t1"
 		}
-		uidB, ordB := zzvrf.Pick("B.user-identity", 2), zzvrf.Pick("B.column-order", 2)
+		uidB, ordB := zzvrf.Pick("B.user-identity", 3), zzvrf.Pick("B.column-order", 2)
 		conf.Integrations = append(conf.Integrations, zzShape("b", tb, shapeB, uidB, ordB))
 		shapes = append(shapes, shapeB)
 	}
